@@ -125,6 +125,11 @@ func (e *Engine) invokeFn(fr *frame, fn *ssa.Function, args []Value, binds []Val
 		}
 		return nil
 	}
+	// generated protobuf packages: run the variable initialisers (enum name
+	// maps etc.) but none of the descriptor/registry machinery
+	if n := len(e.inInit); n > 0 && strings.HasSuffix(e.inInit[n-1].Pkg.Path(), "pb") && fr != nil && fr.fn.Pkg == e.inInit[n-1] {
+		return zeroResults(fn.Signature)
+	}
 	// harness primitives
 	if fn.Pkg == e.pkg && strings.HasPrefix(fn.Name(), "v") && fn.Signature.Recv() == nil {
 		if r, ok := e.harnessPrimitive(fr, fn, args, g, pos); ok {
@@ -229,6 +234,7 @@ func (e *Engine) harnessPrimitive(fr *frame, fn *ssa.Function, args []Value, g *
 		a := e.newNondet(tag, "bytes", 8, ArrS(64, 8), n)
 		l := e.newNondet(tag+".len", "bv", 64, BV(64), 0)
 		e.assume(Implies(g, Ule(l, c64(int64(n)))))
+		setKnownUB(l, uint64(n))
 		return &StrV{Len: l, Data: a, Max: n}, true
 	case "vAssume":
 		c := args[0].(*Term)
@@ -883,4 +889,58 @@ func (e *Engine) addGlobalLits(c *Term) {
 		e.globalLits[k] = v
 	}
 	e.globalLitV++
+	learnBounds(c)
+}
+
+// learnBounds records x <= c facts from an unconditional assumption such as
+// (x >= 0 && x <= 10): needs both the sign and the upper bound for signed x.
+func learnBounds(c *Term) {
+	var conj []*Term
+	if c.op == OAnd {
+		conj = c.args
+	} else {
+		conj = []*Term{c}
+	}
+	nonneg := map[int]bool{}
+	for _, l := range conj {
+		// x >= 0 appears as Not(Slt(x, 0)) or Sle(0, x)
+		if l.op == ONot && l.args[0].op == OSlt && l.args[0].args[1].IsConst() && l.args[0].args[1].val == 0 {
+			nonneg[l.args[0].args[0].id] = true
+		}
+		if l.op == OSle && l.args[0].IsConst() && sx(l.args[0].val, l.args[0].W()) >= 0 {
+			nonneg[l.args[1].id] = true
+		}
+		if l.op == ONot && l.args[0].op == OSlt && l.args[0].args[1].IsConst() && sx(l.args[0].args[1].val, l.args[0].args[1].W()) >= 0 {
+			nonneg[l.args[0].args[0].id] = true // x >= c >= 0
+		}
+	}
+	for _, l := range conj {
+		switch l.op {
+		case OUle:
+			if l.args[1].IsConst() {
+				setKnownUB(l.args[0], l.args[1].val)
+			}
+		case OUlt:
+			if l.args[1].IsConst() && l.args[1].val > 0 {
+				setKnownUB(l.args[0], l.args[1].val-1)
+			}
+		case OSle:
+			if l.args[1].IsConst() && nonneg[l.args[0].id] && sx(l.args[1].val, l.args[1].W()) >= 0 {
+				setKnownUB(l.args[0], l.args[1].val)
+			}
+		case OSlt:
+			if l.args[1].IsConst() && nonneg[l.args[0].id] && sx(l.args[1].val, l.args[1].W()) > 0 {
+				setKnownUB(l.args[0], l.args[1].val-1)
+			}
+		case ONot:
+			// !(c < x)  i.e. x <= c
+			in := l.args[0]
+			if in.op == OSlt && in.args[0].IsConst() && nonneg[in.args[1].id] && sx(in.args[0].val, in.args[0].W()) >= 0 {
+				setKnownUB(in.args[1], in.args[0].val)
+			}
+			if in.op == OUlt && in.args[0].IsConst() {
+				setKnownUB(in.args[1], in.args[0].val)
+			}
+		}
+	}
 }
